@@ -178,8 +178,17 @@ func formatCase(doc string, formats map[string]formatter.NumberFormat, opts form
 
 func formatCaseTree(doc string, j *ast.Journal, errs []parser.ParseError, formats map[string]formatter.NumberFormat,
 	opts formatter.Options, mut string) map[string]any {
+	return formatCaseEdits(doc, j, errs, formats, opts, mut, nil)
+}
+
+// formatCaseEdits: given != nil are edits obtained elsewhere (the textDocument/formatting handler
+// of a real server) for the same text, formats and options.
+func formatCaseEdits(doc string, j *ast.Journal, errs []parser.ParseError, formats map[string]formatter.NumberFormat,
+	opts formatter.Options, mut string, given []protocol.TextEdit) map[string]any {
 	var edits []protocol.TextEdit
-	if mut == "" {
+	if given != nil {
+		edits = given
+	} else if mut == "" {
 		// the real Server.Format path: parse, skip lines with errors, format
 		edits = server.VerifFormatText(doc, formats, opts)
 	} else {
@@ -244,6 +253,7 @@ func ndCase() map[string]any {
 // ---------------------------------------------------------------- generators
 
 type g5 struct {
+	noFormatDirs bool // no commodity / D directives in generated journals
 	r *rand.Rand
 	c *Ctx
 }
@@ -607,7 +617,11 @@ func (g *g5) formatSample() (sym string, text string) {
 }
 
 func (g *g5) directive() []string {
-	switch g.n(10) {
+	x := g.n(10)
+	if g.noFormatDirs && x <= 4 {
+		x = 9
+	}
+	switch x {
 	case 0, 1, 2:
 		sym, f := g.formatSample()
 		g.c.Count("dir.commodity")
@@ -827,6 +841,9 @@ func genC05(c *Ctx) {
 			}
 			opts := g.options()
 			c.Emit("c05.format", formatCaseTree(doc, j, errs, formats, opts, ""))
+		}
+		if i == 0 {
+			genC05Handler(c, g)
 		}
 		if len(errs) == 0 {
 			c.Count("parse.clean")
